@@ -1,7 +1,7 @@
 #!/bin/bash
 # Regenerates every evidence file on the (clean) current tree and validates it. usage: run_all.sh [quick|thorough]
 tier=${1:-quick}
-cd /verif
+cd "$(dirname "$0")/.."
 if [ -n "$(git -C /repo status --porcelain)" ]; then echo "/repo is dirty - refusing"; exit 3; fi
 rc_all=0
 for c in C17 C19 C15 C14 C18 C20 C16 C01 C05; do
